@@ -311,4 +311,84 @@ theorem walk_total (g : Guards) (h1 : g.assertArr = true) (h2 : g.lower = true) 
           · rfl
           · exact isPanic_bind _ _ (ih _ _)
 
+
+theorem splitDot_ne_nil (s : List Char) : splitDot s ≠ [] := by
+  induction s with
+  | nil => simp [splitDot]
+  | cons c cs ih =>
+    simp only [splitDot]
+    split
+    · simp
+    · split <;> simp
+
+theorem parsePath_ne_nil {path : List Char} {segs : List Seg} (h : parsePath path = some segs) : segs ≠ [] := by
+  unfold parsePath at h
+  split at h
+  · cases h
+  · cases h
+    intro hn
+    exact splitDot_ne_nil _ (List.map_eq_nil_iff.mp hn)
+
+theorem addUpload_ok {g : Guards} {v : UV} {path : List Char} {up v' : UV} (h : addUpload g v path up = .ok v') :
+    ∃ segs, parsePath path = some segs ∧ segs ≠ [] ∧ walk g v segs up = .ok v' := by
+  unfold addUpload at h
+  split at h
+  · cases h
+  · rename_i segs hs
+    exact ⟨segs, hs, parsePath_ne_nil hs, h⟩
+
+theorem applyPaths_frame (g : Guards) (segs : List Seg) : ∀ (rest : List (List Char × Nat)) (v1 v : UV),
+    applyPaths g v1 rest = some v →
+    (∀ b ∈ rest, ∀ sb, parsePath b.1 = some sb → Indep segs sb) →
+    lookup v segs = lookup v1 segs := by
+  intro rest
+  induction rest with
+  | nil => intro v1 v h _; simp only [applyPaths] at h; cases h; rfl
+  | cons b rest ih =>
+    intro v1 v h hind
+    obtain ⟨p, id⟩ := b
+    simp only [applyPaths] at h
+    split at h
+    · rename_i v2 hw
+      obtain ⟨sb, hsb, hne, hwalk⟩ := addUpload_ok hw
+      have hi := hind (p, id) List.mem_cons_self sb hsb
+      have := (walk_ok_frame g sb v1 _ v2 hne hwalk).2 segs hi.2 hi.1
+      rw [ih v2 v h (fun b hb => hind b (List.mem_cons_of_mem _ hb)), this]
+    · cases h
+
+theorem applyPaths_lookup (g : Guards) : ∀ (as : List (List Char × Nat)) (v0 v : UV),
+    applyPaths g v0 as = some v →
+    as.Pairwise (fun a b => ∀ sa sb, parsePath a.1 = some sa → parsePath b.1 = some sb → Indep sa sb) →
+    ∀ a ∈ as, ∃ segs, parsePath a.1 = some segs ∧ lookup v segs = some (.upload a.2) := by
+  intro as
+  induction as with
+  | nil => intro _ _ _ _ a ha; cases ha
+  | cons b rest ih =>
+    intro v0 v h hpw a ha
+    obtain ⟨p, id⟩ := b
+    simp only [applyPaths] at h
+    split at h
+    · rename_i v1 hw
+      rw [List.pairwise_cons] at hpw
+      rcases List.mem_cons.mp ha with rfl | ha
+      · obtain ⟨segs, hs, hne, hwalk⟩ := addUpload_ok hw
+        refine ⟨segs, hs, ?_⟩
+        rw [applyPaths_frame g segs rest v1 v h (fun b hb sb hsb => hpw.1 b hb segs sb hs hsb)]
+        exact (walk_ok_frame g segs v0 _ v1 hne hwalk).1
+      · exact ih v1 v h hpw.2 a ha
+    · cases h
+
+
+theorem addUpload_total (g : Guards) (h1 : g.assertArr = true) (h2 : g.lower = true) (h3 : g.upper = true)
+    (h4 : g.assertMap = true) (h5 : g.nilMap = true) (v : UV) (path : List Char) (up : UV) :
+    (addUpload g v path up).isPanic = false := by
+  unfold addUpload
+  split
+  · rfl
+  · exact walk_total g h1 h2 h3 h4 h5 _ _ _
+
+theorem toExit_isPanic (o : Outcome) : o.toExit.isPanic = o.isPanic := by
+  cases o <;> rfl
+
+
 end GqlgenVerif.Upload
